@@ -109,7 +109,26 @@ def check(ctx):
             nones = [a for a in al if is_const(a, None)]
             others = [a for a in al if not is_const(a, None)]
             partial = bool(nones) and bool(others)
-            # tuple keys: (x is None, x) are total
+            # tuple keys: a component that may be None is reached only when all earlier
+            # components compared equal -- total only if an earlier component is the test
+            # "that value is None" (the (x is None, x) idiom)
+            for a in al:
+                if not isinstance(a, TupleT):
+                    continue
+                for i, comp in enumerate(a.items):
+                    cal = flat(comp)
+                    if not (any(is_const(x, None) for x in cal) and
+                            any(not is_const(x, None) for x in cal)):
+                        continue
+                    shielded = False
+                    for prev in a.items[:i]:
+                        p0, _ = unwrap_not(prev, True)
+                        if isinstance(p0, Cmp) and p0.op in ('is', 'is not', '==', '!=') and \
+                                is_const(strip(p0.right), None) and \
+                                alt_ids(p0.left) == alt_ids(comp):
+                            shielded = True
+                    if not shielded:
+                        partial = True
             ctx.ob('R19.2', '%s: sort key is total (never None next to comparable values)'
                    % cmd, not partial, node=s,
                    message='%s sorts entries by %s, which is None for an entry without a '
